@@ -92,7 +92,7 @@ type VerifState struct {
 	PlatformQueues     []string // "prefix|platform|sizeclasses" in list order.
 	SizeClassQueues    []VerifSizeClassQueue
 	Tasks              []VerifTask
-	DeduplicationMap   map[string]string // Digest hash -> lowest operation name of the task.
+	DeduplicationMap   map[string]string // "instance name|hash" -> lowest operation name of the task.
 	CleanupEntries     int
 	OperationsCount    int
 	InvariantViolation []string
@@ -487,7 +487,7 @@ func (bq *InMemoryBuildQueue) VerifDumpState() *VerifState {
 		}
 	}
 	for d, t := range bq.inFlightDeduplicationMap {
-		s.DeduplicationMap[d.GetHashString()] = verifLowestOperationName(t)
+		s.DeduplicationMap[d.GetInstanceName().String()+"|"+d.GetHashString()] = verifLowestOperationName(t)
 		if t.executeResponse != nil {
 			*violations = append(*violations, "deduplication map contains a completed task")
 		}
